@@ -4,6 +4,8 @@ import Crusta.Proofs.SolveCallsID
 import Crusta.Proofs.SolveCallsRG
 import Crusta.Proofs.Assemble
 import Crusta.Proofs.StaticTotal
+import Crusta.Proofs.DynCalls
+import Crusta.Proofs.DynHistory
 
 /-!
 # C18 — every query terminates within a bounded number of SAT calls (property theorems)
@@ -139,5 +141,55 @@ theorem every_query_terminates (sk : SolverKind) (cfg : Cfg) (hcfg : CfgOK sk cf
      (∃ w', interp p rs w = (.abort, w')) ∨ (∃ w', interp p rs w = (.starved, w'))) :=
   ⟨static_never_panics sk cfg hcfg v g hv e hargs p hp w hb hfuel rs hs,
    static_run_total sk cfg hcfg v g hv e hargs p hp w hb hfuel rs hs⟩
+
+/-! ### the dynamic solvers (`src/dynamics`): the same bounds on the framework as it stands
+
+The dynamic solvers do not split the framework into components, so the bound is the one of a single
+component: the whole current framework. -/
+
+/-- complete and stable dynamic solvers, arbitrary replies: at most one SAT call per query, in whatever
+state the update history left the solver -/
+theorem dynamic_co_st_calls (fuel : Nat) (d : Dyn.DState) (q : Dyn.DQuery) (l : Nat) (h : d.enc.sem ≠ .PR) :
+    Bounded (Dyn.query fuel d q l) 1 := Dyn.dyn_query_bounded_co_st fuel d q l h
+
+/-- the dynamic solvers with assumptions on attacks: at most one SAT call per query -/
+theorem dynamic_attacks_calls (d : DynAtt.ADState) (q : Dyn.DQuery) (l : Nat) :
+    Bounded (DynAtt.query d q l) 1 := DynAtt.dynatt_query_bounded d q l
+
+/-- **preferred dynamic solver.**  After any history `ops` of update calls and completed queries, a
+skeptical query about an argument of the framework, on sound replies, does not panic (in particular
+the model's loop fuel — an artefact, the Rust loop has none — is not exhausted once it is at least
+`|CO| + 1`, which `prFuel` covers) and a run that returns has made at most `|CO|` SAT calls, hence at
+most the property's `|CO| + |PR| + 1`, where `|CO|`, `|PR|` count the complete / preferred extensions
+of the current framework (`Dyn.nCO`, `Dyn.nPR`; `counts_are_cardinalities`): no candidate set is
+examined twice. -/
+theorem dynamic_preferred_calls {fuel : Nat} {ops : List StoreOp} {d : Dyn.DState} {w : World}
+    (hreach : Dyn.Reach .PR fuel ops d w) {l id : Nat} (hl : d.pending.Live id l) {fuel' : Nat}
+    (hfuel : Dyn.prFuel d.pending ≤ fuel') (rs : List Reply)
+    (hs : RunSound (Dyn.query fuel' d .skep l) rs w) :
+    (∀ msg w', interp (Dyn.query fuel' d .skep l) rs w ≠ (.crashed msg, w')) ∧
+    ∀ a w', interp (Dyn.query fuel' d .skep l) rs w = (.done a, w') →
+      w'.calls ≤ w.calls + Dyn.nCO d.pending ∧
+      w'.calls ≤ w.calls + (Dyn.nCO d.pending + Dyn.nPR d.pending + 1) := by
+  obtain ⟨hq, henc, _⟩ := Dyn.reach_inv hreach
+  have hwp : wp False (Dyn.query fuel' d .skep l) w (fun _ w' => w'.calls ≤ w.calls + Dyn.nCO d.pending) := by
+    unfold Dyn.query
+    rw [henc]
+    exact wp_mono _ _ _ _ (fun _ _ hh => hh.1)
+      (Dyn.dyn_pr_calls_co hq hl (Nat.le_trans (Dyn.nCO_succ_le_prFuel _) hfuel))
+  obtain ⟨hnc, hdone⟩ := calls_of_wp _ w _ hwp rs hs
+  exact ⟨hnc, fun a w' hi => ⟨hdone a w' hi, by have := hdone a w' hi; omega⟩⟩
+
+/-- the counts are the cardinalities of the sets of complete / preferred extensions -/
+theorem counts_are_cardinalities (st : Store) :
+    Dyn.nCO st = Set.ncard {S : ASet | st.g.Complete S} ∧ Dyn.nPR st = Set.ncard {S : ASet | st.g.Preferred S} :=
+  ⟨Dyn.nCO_eq_ncard st, Dyn.nPR_eq_ncard st⟩
+
+/-- the fuel of the model is immaterial: any two amounts of at least `|CO| + 1` give the same run -/
+theorem dynamic_preferred_fuel_irrelevant {d : Dyn.DState} {w : World} (h : Dyn.QInv .PR d w) {l id : Nat}
+    (hl : d.pending.Live id l) {f1 f2 : Nat} (h1 : Dyn.nCO d.pending + 1 ≤ f1) (h2 : f1 ≤ f2) {rs : List Reply}
+    (hs : RunSound (Dyn.prSkepQuery f1 d l) rs w) :
+    interp (Dyn.prSkepQuery f2 d l) rs w = interp (Dyn.prSkepQuery f1 d l) rs w :=
+  Dyn.dyn_pr_fuel_irrelevant h hl h1 h2 hs
 
 end Crusta.C18
